@@ -92,6 +92,8 @@ def alone_case(core_case, idx):
 
 def pair_trace(args):
     label, core_case, idx, alt_case, alt_idx = args
+    what = ('UntouchedByAssembliesItDoesNotBorder'
+            if label.startswith('distant') else 'IdenticalToStandAloneRun')
     dassh = common.import_dassh()
     d = common.workdir('c06p-' + label)
     ev = []
@@ -115,13 +117,13 @@ def pair_trace(args):
                             xa = np.ravel(a.get(f, np.zeros(0)))
                             xb = np.ravel(b.get(f, np.zeros(0)))
                             ev.append({'e': 'Same',
-                                       'what': 'IdenticalToStandAloneRun',
+                                       'what': what,
                                        'field': f, 'k': k,
                                        'a': [zlib.crc32(xa.tobytes()) & 0x3fffffff],
                                        'b': [zlib.crc32(xb.tobytes()) & 0x3fffffff],
                                        'maxdiff': float(np.max(np.abs(xa - xb)))
                                        if xa.shape == xb.shape and xa.size else -1.0})
-                    ev.append({'e': 'Same', 'what': 'IdenticalToStandAloneRun',
+                    ev.append({'e': 'Same', 'what': what,
                                'field': 'dp', 'k': k,
                                'a': [zlib.crc32(repr(a['dp']).encode()) & 0x3fffffff],
                                'b': [zlib.crc32(repr(b['dp']).encode()) & 0x3fffffff],
@@ -202,6 +204,25 @@ def run(tier, res, replay=None):
                           'axial_plane': [0.15, 0.3, 0.45]})
     pairs.append(('alone-vs-core-after-low-flow-convapprox', ca, 1,
                   alone_case(ca, 1), 0))
+    # two assemblies on opposite sides of an empty centre (they touch no
+    # common gap cell), coupled gap models: what the far one does must not
+    # reach the near one
+    A3 = fitted_type(2, OF)
+    Fc = flow_for(A3, 0.07)
+    for gm in ('flow', 'no_flow'):
+        far = make_core(rng, {'A': A3}, [(2, 1, 'A'), (2, 4, 'A')],
+                        [Fc, 0.8 * Fc], gap_model=gm, bypass_fraction=0.03,
+                        coolant='const', ncell=2,
+                        setup={'axial_mesh_size': 0.0005,
+                               'axial_plane': [0.15, 0.3, 0.45]})
+        hot = copy.deepcopy(far)
+        idy = str(pos_index(2, 4) + 1)
+        for comp in ('pins', 'duct', 'cool'):
+            if hot['power'][idy].get(comp) is not None:
+                hot['power'][idy][comp] = [
+                    [[3.0 * x for x in co] for co in cell]
+                    for cell in hot['power'][idy][comp]]
+        pairs.append((f'distant-assembly-power-{gm}', far, 0, hot, 0))
     with ProcessPoolExecutor(max_workers=common.NCPU) as ex:
         t_own = list(ex.map(own_and_steps, cores))
         t_pair = list(ex.map(pair_trace, pairs))
